@@ -89,6 +89,16 @@ CHECKS = {
         "float32 rounding tolerated at 1e-4 of the largest summed term; inputs outside the alphabet and T beyond the bound not covered; "
         "batch size 1 (batch independence is C11)",
     ),
+    "C04": (
+        "model_checking", "DESIGN.md §3 C04",
+        "exhaustive spike-history trie on the real synapse classes (in-place and out-of-place in lockstep) against closed-form "
+        "impulse-response sums and a history-indexed reference for every delayed read on a selector grid",
+        "For the four synapse classes x dt {1,0.5} x max delay {0,1,2,2.5}dt x interpolation mode x tolerance {0,dt/4} x overbound "
+        "{value,None,default} x batch {1,2}, every boolean history (2 elements) of length <=3 (quick) / <=5 (thorough) is replayed on "
+        "fresh synapses; forward value, .current, .spike and current_at/spike_at for every selector of the half-step grid (incl. "
+        "beyond-range and tolerance-band probes; trailing-D, heterogeneous) are compared with values computed from the history alone.",
+        "selectors between half-steps not covered; delta-plus injected currents follow a fixed cycle; float tolerance 1e-5",
+    ),
 }
 
 PENDING_REASON = "check not built yet in this session (claimed in DESIGN.md; will move to checks when its exploration exists)"
